@@ -18,7 +18,7 @@ import CookModel.Analysis.Model
   CW      := ( cw TEXT OPTTEXT OPT<V> OPTTEXT REL N )
   TM      := ( tm OPTTEXT OPT<QTY> )
 -/
-namespace Cook.Driver
+namespace Cook.Driver.RecipeSexp
 open Cook Sexp
 
 def decNumber : Sexp → Option (Number Float)
@@ -104,4 +104,4 @@ def decRecipe {V} (dv : Sexp → Option V) : Sexp → Option (Recipe Float V)
 def decScaledRecipe : Sexp → Option (ScaledRecipe Float) := decRecipe decValue
 def decScalableRecipe : Sexp → Option (ScalableRecipe Float) := decRecipe decScalable
 
-end Cook.Driver
+end Cook.Driver.RecipeSexp
